@@ -1,5 +1,6 @@
 import PhysisModel.Proofs.Sha1Pad
 import PhysisModel.Proofs.Fiin
+import PhysisModel.Proofs.PatchList
 /-!
 # C10 — file-info tables and patch lists are produced and parsed faithfully
 
@@ -95,11 +96,53 @@ theorem c10_fiin_size_exact (n : Nat) (h : n < 2 ^ 31) :
 example : [([0x64, 0x2f, 0x61, 0x2e, 0x62], [1, 2, 3]), ([0x78], [])].all
     (fun f : Bytes × Bytes => Spec.Fiin.WFPath f.1) = true := by decide
 
-/-- a table built by `FileInfo::new`, written and parsed again lists the same files: base name,
-size, and the digest followed by the four padding bytes of its field -/
-theorem c10_fiin_new_roundtrip (files : List (Bytes × Bytes)) (es : List Spec.Fiin.Entry)
-    (hn : Fiin.new files = some es) (h : Spec.Fiin.WF es = true) :
-    Fiin.parse (Fiin.write es) = .ok (es.map Spec.Fiin.normEntry) :=
-  c10_fiin_roundtrip es h
+/-! ## patch lists (`src/patchlist.rs`, with fix C10-01) -/
+
+open Spec.PatchList in
+/-- `PatchList::to_string` produces the documented wire text (header lines, `X-Patch-Length` =
+sum of the patch lengths, one tab-separated row per patch) for every well-formed boot or game
+list. -/
+theorem c10_patchlist_write (kind : Kind) (pl : PatchList) (h : WF kind pl = true) :
+    Physis.PatchList.toString kind pl = some (encode kind pl) :=
+  Physis.PatchList.toString_eq kind pl h
+
+open Spec.PatchList in
+/-- `PatchList::from_string` reads the documented wire text back: every patch (length, size on
+disk, version, hash block size, hashes, URL — for boot lists the columns boot rows have) and the
+total patch length. -/
+theorem c10_patchlist_parse (kind : Kind) (pl : PatchList) (h : WF kind pl = true) :
+    Physis.PatchList.fromString kind (encode kind pl) = some (decoded kind pl) :=
+  Physis.PatchList.fromString_encode kind pl h
+
+open Spec.PatchList in
+/-- rendering a list and parsing the text again yields the same patches and
+`patch_length = Σ lengths` -/
+theorem c10_patchlist_roundtrip (kind : Kind) (pl : PatchList) (h : WF kind pl = true) :
+    (Physis.PatchList.toString kind pl).bind (Physis.PatchList.fromString kind) =
+      some (decoded kind pl) :=
+  Physis.PatchList.roundtrip kind pl h
+
+open Spec.PatchList in
+/-- spelled out for game lists: the six transported fields of every patch survive, and the total
+patch length is the sum of the lengths -/
+theorem c10_patchlist_roundtrip_game (pl pl' : PatchList) (h : WF .game pl = true)
+    (hrt : (Physis.PatchList.toString .game pl).bind (Physis.PatchList.fromString .game) = some pl') :
+    pl'.patchLength = (totalLength pl.patches).toNat ∧
+    pl'.patches.map (fun p => (p.length, p.sizeOnDisk, p.version, p.hashBlockSize, p.hashes, p.url)) =
+      pl.patches.map (fun p => (p.length, p.sizeOnDisk, p.version, p.hashBlockSize, p.hashes, p.url)) := by
+  rw [c10_patchlist_roundtrip .game pl h] at hrt
+  cases hrt
+  simp [decoded, carried, Function.comp_def]
+
+/-- non-vacuity: a game list with two patches (one with two hashes) and a boot list -/
+example : Spec.PatchList.WF .game
+    ⟨[0x34, 0x37], 0, [0x66, 0x66, 0x2f, 0x58], [],
+     [⟨[0x68, 0x74, 0x74, 0x70, 0x3a, 0x2f, 0x2f, 0x78], [0x32, 0x30, 0x32, 0x33], 50000000,
+        1479062470, 44145529682, [[0x61, 0x62], [0x63]], 71, 11⟩,
+      ⟨[0x75], [0x76], -1, 9223372035000000000, -5, [[]], -2147483648, 2147483647⟩]⟩ = true := by
+  decide
+example : Spec.PatchList.WF .boot
+    ⟨[], 0, [], [], [⟨[0x75], [0x76], 0, 22221335, 69674819, [], 19, 18⟩]⟩ = true := by
+  decide
 
 end Physis.C10
